@@ -219,14 +219,14 @@ theorem C12_restriction_keeps_values {V : Type} [PyVal V] (c : ECfg V) (S : TM.N
     (hcl : isClosedB c S = true) (x : TM.Node) (hx : x ∉ c.nodes ∨ S x = true) :
     den (restrict c S) x = den c x := VM.den_restrict c S hcl x hx
 
-/-- C19: the composed table returns for every output what the original pipeline computes if the input
-    nodes had produced the supplied values.  (`hcl` is decidable and checked by the driver on every
-    composed table; proving it once and for all for `needed` is left: PARTIAL in that sense.) -/
-theorem C19_compose_computes_outputs_partial {V : Type} [PyVal V] (c : ECfg V) (ins outs : List TM.Node) (vals : List V)
-    (hcl : isClosedB (withInputs c ins vals) (fun n => (needed c ins outs).contains n) = true)
+/-- C19: for every well-formed table, every choice of inputs, outputs and supplied values: the composed
+    table (inputs turned into holders of the supplied values, restricted to what the outputs need)
+    returns for every output exactly what the original pipeline computes "if the input nodes had
+    produced these values".  The original is untouched (`compose` is a pure function of the table). -/
+theorem C19_compose_correct {V : Type} [PyVal V] (c : ECfg V) (hwf : WF c) (ins outs : List TM.Node) (vals : List V)
     (o : TM.Node) (ho : o ∈ outs) :
     den (composeCfg c ins outs vals) o = den (withInputs c ins vals) o :=
-  VM.C19_compose_computes_outputs c ins outs vals hcl o ho
+  VM.C19_compose_correct c hwf ins outs vals o ho
 
 /-- C17 (b): any interleaving of `k` executions (concurrent awaits in one loop), each on its private
     copy of the results: every one that returns computed the denotation of its own table/arguments. -/
